@@ -1,0 +1,15 @@
+//go:build verif
+
+// Contracts for the deductive verifier in /verif (comment-only file; see /verif/DESIGN.md).
+package endtxn
+
+//@ property C04
+
+// Wire layout per version, from the Kafka protocol definition of this API (field order, types and the versions each field
+// exists in); the encoders and decoders are compiled from the struct tags, so the tags are checked against it.
+//@ wire Request
+//@   layout v0..v2 TransactionalID string, ProducerID int64, ProducerEpoch int16, Committed bool
+//@   layout v3 _ struct{} @-1, TransactionalID string, ProducerID int64, ProducerEpoch int16, Committed bool
+//@ wire Response
+//@   layout v0..v2 ThrottleTimeMs int32, ErrorCode int16
+//@   layout v3 _ struct{} @-1, ThrottleTimeMs int32, ErrorCode int16
